@@ -451,13 +451,14 @@ func Explore(ld *Loaded, cfg *Config) *RunResult {
 					}
 					mu.Unlock()
 
-					if in.tt.next > 1200000 || len(in.qcache) > 600000 {
+					if in.tt.next > 1200000 || len(in.qcache) > 600000 || in.cacheBytes > 256<<20 {
 						// bound memory: start over with a fresh term table (terms never cross paths;
 						// everything keyed by term ids goes with it, including the init snapshot)
 						in.tt = NewTermTable()
 						in.solver.tt = in.tt
 						in.solver.Reset()
 						in.qcache = map[string]string{}
+						in.cacheBytes = 0
 						in.ecache = map[string][]int64{}
 						in.varCache = map[int][]int{}
 						in.varIDs = map[string]int{}
